@@ -324,4 +324,9 @@ impl<'a> RegExp<'a> {
     pub(crate) fn verif_ast(&self) -> &Expression<'a> {
         &self.ast
     }
+
+    /// A `RegExp` around a given expression (only `Display` is used on it).
+    pub(crate) fn verif_with_ast(ast: Expression<'a>, config: &'a RegExpConfig) -> Self {
+        Self { ast, config }
+    }
 }
